@@ -363,6 +363,12 @@ inductive Walk
 `seek_in_bounds`). -/
 def oob : Int := -99
 
+/-- `client->dataset[c].begin_position = b`. -/
+def setBegin (s : State) (c : Nat) (b : Int) : State := { s with begins := s.begins.set c b }
+
+/-- `client->dataset[c].total_size = z`. -/
+def setSize (s : State) (c : Nat) (z : Int) : State := { s with sizes := s.sizes.set c z }
+
 /-- The extra exit of the SEEK_SET walks: this node ends behind `offset`
 (`begin_position + total_size > offset`). -/
 def holds (stopAt : Option Int) (nodeEnd : Int) : Bool :=
@@ -381,7 +387,7 @@ def walkKnown (stopAt : Option Int) : Nat → Nat → State → Walk
     | some b, some sz =>
       if b < 0 ∨ sz < 0 ∨ holds stopAt (b + sz) = true then .at_ c s
       else if c + 1 < s.begins.length then
-        walkKnown stopAt left (c + 1) { s with begins := s.begins.set (c + 1) (b + sz) }
+        walkKnown stopAt left (c + 1) (setBegin s (c + 1) (b + sz))
       else .fail oob s
     | _, _ => .fail oob s
 
@@ -398,14 +404,14 @@ def walkProbe (stopAt : Option Int) : Nat → Nat → State → Walk
       | none => .fail oob r.2
       | some b =>
         if c < r.2.sizes.length then
-          let s3 := { r.2 with sizes := r.2.sizes.set c r.1 }
+          let s3 := setSize r.2 c r.1
           if holds stopAt (b + r.1) then .at_ c s3
           else
             match left with
             | 0 => .at_ c s3
             | left' + 1 =>
               if c + 1 < s3.begins.length then
-                walkProbe stopAt left' (c + 1) { s3 with begins := s3.begins.set (c + 1) (b + r.1) }
+                walkProbe stopAt left' (c + 1) (setBegin s3 (c + 1) (b + r.1))
               else .fail oob s3
         else .fail oob r.2
 
